@@ -89,7 +89,7 @@ func (x *Exec) call(st *State, in ssa.Instruction, cc *ssa.CallCommon, res ssa.V
 			vc.set(st, comp, v.t)
 		}
 	}
-	if tgt.dynamic && !cc.IsInvoke() {
+	if tgt.dynamic && !cc.IsInvoke() && !x.runningDefer {
 		fv := x.value(cc.Value)
 		if _, isClosure := cc.Value.(*ssa.MakeClosure); !isClosure {
 			if _, isFn := cc.Value.(*ssa.Function); !isFn {
@@ -174,6 +174,9 @@ func (x *Exec) applyContract(st *State, in ssa.Instruction, tgt *target, recv *v
 		env := x.newEnvFor(st, st, tgt.pkg)
 		env.bindCallArgs(tgt, recv, args)
 		env.callee = tgt
+		if tgt.closure != nil {
+			x.bindClosure(env, tgt.fn, tgt.closure)
+		}
 		t := env.evalBool(cl.Expr)
 		parts := splitAnd(t)
 		for pi, g := range parts {
@@ -199,6 +202,9 @@ func (x *Exec) applyContract(st *State, in ssa.Instruction, tgt *target, recv *v
 	envPre := x.newEnvFor(pre, pre, tgt.pkg)
 	envPre.bindCallArgs(tgt, recv, args)
 	envPre.callee = tgt
+	if tgt.closure != nil {
+		x.bindClosure(envPre, tgt.fn, tgt.closure)
+	}
 	for _, m := range c.Mods {
 		x.applyMod(st, envPre, m)
 	}
@@ -211,6 +217,9 @@ func (x *Exec) applyContract(st *State, in ssa.Instruction, tgt *target, recv *v
 				env := x.newEnvFor(pre, pre, tgt.pkg)
 				env.bindCallArgs(tgt, recv, args)
 				env.callee = tgt
+				if tgt.closure != nil {
+					x.bindClosure(env, tgt.fn, tgt.closure)
+				}
 				o := env.eval(le)
 				if pt, ok := o.typ.Underlying().(*types.Pointer); ok {
 					if md := x.g.monitorOfType(pt.Elem()); md != nil {
@@ -227,6 +236,9 @@ func (x *Exec) applyContract(st *State, in ssa.Instruction, tgt *target, recv *v
 			env := x.newEnvFor(pre, pre, tgt.pkg)
 			env.bindCallArgs(tgt, recv, args)
 			env.callee = tgt
+			if tgt.closure != nil {
+				x.bindClosure(env, tgt.fn, tgt.closure)
+			}
 			o := env.eval(le)
 			if pt, ok := o.typ.Underlying().(*types.Pointer); ok {
 				if md := x.g.monitorOfType(pt.Elem()); md != nil {
@@ -259,6 +271,9 @@ func (x *Exec) applyContract(st *State, in ssa.Instruction, tgt *target, recv *v
 		env := x.newEnvFor(pre, pre, tgt.pkg)
 		env.bindCallArgs(tgt, recv, args)
 		env.callee = tgt
+		if tgt.closure != nil {
+			x.bindClosure(env, tgt.fn, tgt.closure)
+		}
 		v := env.eval(fe)
 		if v.srt != sSlice {
 			panic(contractErr("freezes: not a slice"))
@@ -272,6 +287,9 @@ func (x *Exec) applyContract(st *State, in ssa.Instruction, tgt *target, recv *v
 		env := x.newEnvFor(pre, pre, tgt.pkg)
 		env.bindCallArgs(tgt, recv, args)
 		env.callee = tgt
+		if tgt.closure != nil {
+			x.bindClosure(env, tgt.fn, tgt.closure)
+		}
 		env.bindResults(sig, results)
 		v := env.eval(ef.Expr)
 		comp := env.compByName("ghost:" + ef.Name)
@@ -285,6 +303,9 @@ func (x *Exec) applyContract(st *State, in ssa.Instruction, tgt *target, recv *v
 		env := x.newEnvFor(st, pre, tgt.pkg)
 		env.bindCallArgs(tgt, recv, args)
 		env.callee = tgt
+		if tgt.closure != nil {
+			x.bindClosure(env, tgt.fn, tgt.closure)
+		}
 		env.bindResults(sig, results)
 		t := env.evalBool(cl.Expr)
 		vc.assert(implies(st.reach, t))
@@ -1062,6 +1083,9 @@ func (x *Exec) bindClosure(env *Env, fn *ssa.Function, mc *ssa.MakeClosure) {
 		b := mc.Bindings[i]
 		lv := x.lvalueForRead(b)
 		if lv == nil {
+			// captured by value (a variable that is never reassigned): the binding is the value itself
+			bv, bt := x.value(b), b.Type()
+			env.lazy[fv.Name()] = func(e *Env) val { return val{bv, bt, vc.sortOf(bt)} }
 			continue
 		}
 		et := fv.Type().Underlying().(*types.Pointer).Elem()
@@ -1194,6 +1218,17 @@ func (x *Exec) builtin(st *State, in ssa.Instruction, b *ssa.Builtin, cc *ssa.Ca
 		ch := x.value(cc.Args[0])
 		vc.regComp("ChanClosed", "(Array Int Bool)")
 		x.implicit(st, in, "close", and(not(eq(ch, "0")), not(sel(vc.get(st, "ChanClosed"), ch))), "close of nil or closed channel")
+		// closing a channel declared `flagchan T.f signals Pred` publishes Pred(owner): it must hold now
+		if pred, owner, pkg := x.g.flagSignal(cc.Args[0]); pred != "" {
+			env := x.newEnvFor(st, st, pkg)
+			env.names["$obj"] = val{x.value(owner), owner.Type(), sInt}
+			t := env.evalBool(&CExpr{Op: "call", Name: pred, Args: []*CExpr{{Op: "ident", Name: "$obj"}}})
+			o := &Obl{Name: fmt.Sprintf("%s/signal/%s/%s", x.prefix, pred, x.srcOf(in)), Kind: "signal", Props: x.props, Reach: st.reach, Goal: t, Src: "closing the channel publishes " + pred + ": it must hold at the close"}
+			if in != nil && in.Pos().IsValid() {
+				o.Pos = x.g.fset.Position(in.Pos())
+			}
+			vc.oblige(o)
+		}
 		vc.set(st, "ChanClosed", store(vc.get(st, "ChanClosed"), ch, "true"))
 	case "panic":
 		x.implicit(st, in, "panic", "false", "explicit panic")
